@@ -156,3 +156,78 @@ def unchanged(before, after, skip=()):
         conds.append(same(before[k], after[k]))
         names.append(k)
     return And(*conds), names
+
+
+# ------------------------------------------------------------------ message gate (shared by C07 L7.4 and C08 L8.7)
+def msg_gate_world(elo, ehi, fragment=False):
+    """receiver with an arbitrary 256-bit message window; a fresh genuine datagram carries one message whose
+    message seq lies e behind the newest message seen (e < 0: newer).  -> (rx, ok, e, seen_in_window, y)"""
+    clock = clock_at(100.0)
+    rx = mk_base(server=True, clock=clock)
+    tx = mk_base(server=False, clock=clock)
+    cur = symint('msg_cur', 1, 65535)
+    bits = core.symbv('msg_bits', 256)
+    rx.bitfield_msg.current_seqnum = SeqNum(cur)
+    rx.bitfield_msg.bits = bits
+    e = symint('e', elo, ehi)
+    y = SeqNum(cur) + (-e)
+    tx.seq_sending = SeqNum(symint('pkt_seq', 1, 65534))
+    tx.seq_message = y - 1
+    payload, L = rope.blob('p', 0, 100)
+    if fragment:
+        tx._send_type(PacketType.APP_FRAGMENT, conn.struct.pack('>HHH', 3, 1, 1) + payload, RetryMode.NONE, None)
+    else:
+        tx.send(payload, RetryMode.NONE, None)
+    pkt = tx._build_packet_impl(100.0, False, 0.1)
+    raw = tx._encode_packet(pkt)
+    hdr = PacketHeader.from_bytes(True, raw)
+    if bool(e < 0):
+        seen = False
+    elif bool(e == 0):
+        seen = True
+    elif bool(e <= 256):
+        z = bits.z if isinstance(bits, SxInt) and bits.z is not None else None
+        k = 256 - core.concrete(e, cap=300)
+        seen = SxBool(z3.Extract(k, k, z) == 1) if z is not None else bool((int(bits) >> k) & 1)
+    else:
+        seen = None         # older than the window: the window cannot tell
+    ok = rx._recv_datagram(hdr, raw)
+    return rx, ok, e, seen, y, payload
+
+
+def replay_msg_gate(m, fragment=False):
+    """API-level: the window state is reached by delivering its members oldest first, then the message at offset e
+    arrives in a fresh datagram.  -> (accepted, delivered count, received before)"""
+    from .common import real
+    c = real('mpgameserver.connection')
+    cur, bits, e = m['msg_cur'], m['msg_bits'], m['e']
+    now = [100.0]
+    tx = c.ConnectionBase(False, ('p', 1))
+    rx = c.ConnectionBase(True, ('p', 1))
+    for z in (tx, rx):
+        z.status = c.ConnectionStatus.CONNECTED
+        z.session_key_bytes = KEY
+        z.clock = lambda: now[0]
+    members = [int(c.SeqNum(cur) + (-k)) for k in range(256, 0, -1) if (bits >> (256 - k)) & 1] + [cur]
+
+    def ship(mseq, body, frag=False):
+        tx.seq_message = c.SeqNum(mseq) - 1
+        if frag:
+            import struct
+            tx._send_type(c.PacketType.APP_FRAGMENT, struct.pack('>HHH', 3, 1, 1) + body, c.RetryMode.NONE, None)
+        else:
+            tx.send(body)
+        pkt = tx._build_packet_impl(now[0], False, 0.1)
+        raw = tx._encode_packet(pkt)
+        now[0] += 0.001
+        return rx._recv_datagram(c.PacketHeader.from_bytes(True, raw), raw)
+    for s_ in members:
+        ship(s_, b'w')
+    if rx.bitfield_msg.bits != bits or int(rx.bitfield_msg.current_seqnum) != cur:
+        return None
+    y = int(c.SeqNum(cur) + (-e))
+    before = y in members
+    n0, f0 = len(rx.incoming_messages), len(rx.received_fragments)
+    ok = ship(y, b'the message', fragment)
+    got = (len(rx.incoming_messages) - n0) + (len(rx.received_fragments) - f0)
+    return ok, got, before
